@@ -3,8 +3,11 @@ pub mod c01;
 pub mod c02;
 pub mod c03;
 pub mod c04;
+pub mod c05;
+pub mod c07;
 pub mod c12;
 pub mod c14;
+pub mod c15;
 pub mod c20;
 
 use crate::engine::Engine;
@@ -15,8 +18,11 @@ pub fn lookup(id: &str) -> Option<(&'static str, fn(&Engine))> {
         "C02" => ("C02", c02::run),
         "C03" => ("C03", c03::run),
         "C04" => ("C04", c04::run_prop),
+        "C05" => ("C05", c05::run),
+        "C07" => ("C07", c07::run),
         "C12" => ("C12", c12::run),
         "C14" => ("C14", c14::run),
+        "C15" => ("C15", c15::run),
         "C20" => ("C20", c20::run),
         _ => return None,
     })
